@@ -132,6 +132,10 @@ theorem tcp_step_bridge (fc : Seg → Bool) (s : Seg) (ts : Nat) (hts : s.tsval 
         refine ⟨by trivial, ?_⟩
         cases fc s <;> rfl
 
+/-- The two extractions of the tracker's entry lifetime (Gen/Uptime.lean for C19, Gen/FlowTtl.lean for the
+cache programs) read the same constant: the cache program's default lifetime is C19's. -/
+theorem ttl_agree : ({ estimate := uptimeParams.estimate } : UptimeParams Uptime).ttlMs = cacheTtlMs := by decide
+
 /-- The observation the tracker makes of a timestamped segment. -/
 def toObs (fc : Seg → Bool) (s : Seg) (ts : Nat) : Obs :=
   { mono := s.time, wall := s.wall, conn := (toAddrKey ⟨s.src, s.dst, fc s⟩).conn, fromClient := fc s, ts := ts }
